@@ -204,15 +204,17 @@ CLAIMS["C06"] = {
             "long inputs is not executed.",
 }
 CLAIMS["C08"] = {
-    "engine": "E2-mirsym",
+    "engine": "E2-mirsym + E1-kani",
     "design_ref": "DESIGN.md §1 C08",
-    "technique": "symbolic execution of parse_token / parse_list with first byte, lookahead, all option fields and name predicates symbolic (z3)",
+    "technique": "symbolic execution of parse_token / parse_list with first byte, lookahead, all option fields and name predicates symbolic (z3); "
+                 "Kani/CBMC bounded model checking of with_keyword_syntaxes over every list of 0-3 syntaxes",
     "text": "For every first byte, lookahead byte, all 1536 option sets and abstract names: each token kind is produced "
             "exactly under the spelling and option that governs it, independent of the name's first byte class; numbers "
             "only when the whole token is a literal (also in leading-digit mode); quote shorthands map to the four "
             "heads; lists and vectors close only at their own closer, dotted tails included; the option sets are exactly "
             "what the public builder API produces (each with_* changes one field, getters, disjoint keyword flags, presets). "
-            "c08_list_value_shape: the value list reader stores elements, dot-initial names and the dotted tail unchanged at the right place of the chain.",
+            "c08_list_value_shape: the value list reader stores elements, dot-initial names and the dotted tail unchanged at the right place of the chain. "
+            "c08_keyword_syntaxes (Kani): with_keyword_syntaxes replaces the enabled keyword syntaxes by exactly the listed ones (lists of 0-3, 5 starting option sets) and changes nothing else.",
     "note": "Names are abstracted to three predicates (is nil, is t, ends with ':'); the scanners below parse_token are "
             "separate claims. Non-interference between options follows from the classifier the code is checked against.",
 }
